@@ -450,15 +450,29 @@ func c19Sizes(c *Ctx, ge *GuardEngine) {
 
 // sizeofArgType: T{} or types.EncoderFunc(T{}.encodeTo) -> "pkg.T"
 func sizeofArgType(info *types.Info, e ast.Expr) string {
-	e = stripParens(e)
-	if cl, ok := e.(*ast.CompositeLit); ok && len(cl.Elts) == 0 {
-		return typeName(info.TypeOf(cl))
+	zeroLit := func(x ast.Expr) string { // T{}, &T{}, new(T)
+		x = stripParens(x)
+		if u, ok := x.(*ast.UnaryExpr); ok && u.Op == token.AND {
+			x = stripParens(u.X)
+		}
+		if cl, ok := x.(*ast.CompositeLit); ok && len(cl.Elts) == 0 {
+			return typeName(info.TypeOf(cl))
+		}
+		if call, ok := x.(*ast.CallExpr); ok && len(call.Args) == 1 {
+			if id, ok := call.Fun.(*ast.Ident); ok && id.Name == "new" {
+				return typeName(info.TypeOf(call.Args[0]))
+			}
+		}
+		return ""
 	}
+	e = stripParens(e)
+	if t := zeroLit(e); t != "" {
+		return t
+	}
+	// types.EncoderFunc(T{}.encodeTo) / (&T{}).encodeTo
 	if call, ok := e.(*ast.CallExpr); ok && len(call.Args) == 1 {
 		if sel, ok := stripParens(call.Args[0]).(*ast.SelectorExpr); ok {
-			if cl, ok := stripParens(sel.X).(*ast.CompositeLit); ok && len(cl.Elts) == 0 {
-				return typeName(info.TypeOf(cl))
-			}
+			return zeroLit(sel.X)
 		}
 	}
 	return ""
@@ -502,7 +516,14 @@ func c19BoundedReads(c *Ctx, ge *GuardEngine) {
 				ok2 := limit != "" && boundedAtom(limit, wire[fname])
 				// a helper that is handed a limit must use it
 				for _, prm := range fn.Params {
-					if countCallsTo(fn, "types.NewDecoder") != 1 {
+					// decoder helpers: one NewDecoder, a callback that consumes it, and the limit as a parameter
+					hasCallback := false
+					for _, q := range fn.Params {
+						if _, isFn := q.Type().Underlying().(*types.Signature); isFn {
+							hasCallback = true
+						}
+					}
+					if countCallsTo(fn, "types.NewDecoder") != 1 || !hasCallback {
 						break
 					}
 					if b, ok := prm.Type().Underlying().(*types.Basic); ok && (b.Kind() == types.Int || b.Kind() == types.Uint64) && strings.Contains(strings.ToLower(prm.Name()), "len") {
@@ -593,7 +614,7 @@ func limitedReaderN(v ssa.Value) ssa.Value {
 var (
 	maxLenCallRe = regexp.MustCompile(`call (invoke )?[^ ()]*(\([^()]*\))?\.?max(Len|RequestLen|ResponseLen)\([^()]*\)`)
 	wireLenRe    = regexp.MustCompile(`call \(types\.Decoder\)\.ReadUint64\(call types\.NewDecoder\(lit\{[^{}]*(\{[^{}]*\})?[^{}]*\}\)\)`)
-	boundTokRe   = regexp.MustCompile(`const:-?\d+|\{u?int(64)?\}(#\d+)?|phi\(|[|+\-() ]`)
+	boundTokRe   = regexp.MustCompile(`const:-?\d+|\{u?int(64)?\}(#\d+)?|phi\(|call (max|min)\(|[|+\-(), ]`)
 )
 
 // boundedAtom: the limit is built from constants, integer parameters, max*Len methods, + and - only;
